@@ -360,13 +360,30 @@ pub fn scenarios(tier: Tier) -> Vec<(Scenario, Option<usize>)> {
         ));
     }
     // one Combined sink writing a JSON-lines file and a CSV file: each response takes both pairs of locks one after the other
-    v.push((Scenario { name: "2x2_combined_1_keep".into(), batches: vec![vec![q(0, "a0"), q(2, "a1")], vec![q(1, "b0"), q(4, "b1")]], csv: false, flush_rate: 1, keep_responses: true, fresh_app: false, combined: true }, Some(tier.pick(2, 4))));
-    v.push((Scenario { name: "2x1_combined_2_discard".into(), batches: vec![vec![q(0, "a0")], vec![q(1, "b0")]], csv: false, flush_rate: 2, keep_responses: false, fresh_app: false, combined: true }, tier.pick(Some(3), None)));
+    v.push((Scenario { name: "2x2_combined_1_keep".into(), batches: vec![vec![q(0, "a0"), q(2, "a1")], vec![q(1, "b0"), q(4, "b1")]], csv: false, flush_rate: 1, keep_responses: true, fresh_app: false, combined: true }, Some(tier.pick(3, 5))));
+    v.push((Scenario { name: "2x1_combined_2_discard".into(), batches: vec![vec![q(0, "a0")], vec![q(1, "b0")]], csv: false, flush_rate: 2, keep_responses: false, fresh_app: false, combined: true }, None));
     // three tasks: preemption bounded
     let b3 = tier.pick(2, 3);
-    v.push((Scenario { name: "3x1_jsonl".into(), batches: vec![vec![q(0, "a0")], vec![q(1, "b0")], vec![q(2, "c0")]], csv: false, flush_rate: 1, keep_responses: true, fresh_app: false, combined: false }, Some(tier.pick(3, 5))));
+    v.push((Scenario { name: "3x1_jsonl".into(), batches: vec![vec![q(0, "a0")], vec![q(1, "b0")], vec![q(2, "c0")]], csv: false, flush_rate: 1, keep_responses: true, fresh_app: false, combined: false }, Some(tier.pick(4, 6))));
     v.push((Scenario { name: "3x2_csv".into(), batches: vec![vec![q(0, "a0"), q(3, "a1")], vec![q(1, "b0"), q(2, "b1")], vec![q(5, "c0"), q(4, "c1")]], csv: true, flush_rate: 2, keep_responses: true, fresh_app: false, combined: false }, Some(b3)));
     if tier == Tier::Thorough {
+        // the whole matrix of small shapes under preemption bound 2: tasks x queries per task x format x flush rate x persistence
+        // (the hand-picked scenarios above go deeper on a few of them)
+        for tasks in [2usize, 3] {
+            for per_task in [1usize, 2] {
+                for fmt in ["jsonl", "csv", "combined"] {
+                    for flush in [1i64, 2, 3] {
+                        for keep in [true, false] {
+                            let batches: Vec<Vec<Value>> = (0..tasks).map(|t| (0..per_task).map(|k| q((t * 2 + k * 3) % 6, &format!("{}{}", ["a", "b", "c"][t], k))).collect()).collect();
+                            v.push((
+                                Scenario { name: format!("gen_{}x{}_{}_{}_{}", tasks, per_task, fmt, flush, if keep { "keep" } else { "discard" }), batches, csv: fmt == "csv", flush_rate: flush, keep_responses: keep, fresh_app: false, combined: fmt == "combined" },
+                                Some(2),
+                            ));
+                        }
+                    }
+                }
+            }
+        }
         v.push((Scenario { name: "3x2_jsonl_discard".into(), batches: vec![vec![q(0, "a0"), q(3, "a1")], vec![q(1, "b0"), q(2, "b1")], vec![q(5, "c0"), q(4, "c1")]], csv: false, flush_rate: 3, keep_responses: false, fresh_app: false, combined: false }, Some(3)));
         v.push((Scenario { name: "2x3_jsonl".into(), batches: vec![vec![q(0, "a0"), q(2, "a1"), q(3, "a2")], vec![q(1, "b0"), q(4, "b1"), q(5, "b2")]], csv: false, flush_rate: 2, keep_responses: true, fresh_app: false, combined: false }, Some(4)));
     }
@@ -668,22 +685,15 @@ pub fn run(tier: Tier) -> i32 {
             return 2;
         }
     };
-    let mut st = Stats::new();
     let mut bounds = serde_json::Map::new();
-    for (sc, bound) in scenarios(tier) {
-        match explore_scenario(&fx, &sc, bound, tier.pick(40_000, 2_000_000), "C19", &mut st) {
-            Ok((orders, schedules)) => {
-                bounds.insert(sc.name.clone(), json!({"preemption_bound": bound.map(|b| json!(b)).unwrap_or(json!("unbounded (complete)")), "schedules": schedules, "distinct_file_orders": orders}));
-                if orders < 2 {
-                    st.violation("harness", "vacuous_exploration", 0, || format!("scenario {} produced a single file order: nothing collided", sc.name), || json!({"scenario": sc.name}));
-                }
-            }
-            Err(e) => {
-                println!("MACHINERY-ERROR {}", e);
-                return 2;
-            }
+    // the scenarios are explored in parallel, one worker process each (the scheduling hook is global to a process)
+    let mut st = match explore_in_workers("C19", tier, scenarios(tier).len() as u64, &mut bounds) {
+        Ok(st) => st,
+        Err(e) => {
+            println!("MACHINERY-ERROR {}", e);
+            return 2;
         }
-    }
+    };
     st.sample(2, || json!({"scenario": "2x2_jsonl_1_keep", "tasks": 2, "queries_per_task": 2, "schedule": [0, 0, 1, 0, 0, 1], "meaning": "choice index among enabled tasks at each lock/write/flush point; 0 = running task continues"}));
     histories(&fx, tier, &mut st);
     st.sample(4, || json!({"history": {"format": "csv_optional", "persistence": "persist_response_in_memory", "parallelism": 3, "runs": [[0, 2], [1, 4, 3]]}}));
@@ -700,6 +710,79 @@ pub fn run(tier: Tier) -> i32 {
         Value::Object(bounds),
         assumptions,
     )
+}
+
+/// runs `n` scenario explorations of property `id` in worker processes (`vharness --worker <id> <tier> scenarios`);
+/// the workers report their scenario's bound, schedule count and distinct outcomes in a `BOUND {json}` note
+pub fn explore_in_workers(id: &str, tier: Tier, n: u64, bounds: &mut serde_json::Map<String, Value>) -> Result<Stats, String> {
+    use crate::engine::sandbox::{run_cases, SandboxCfg};
+    let cfg = SandboxCfg {
+        worker_args: vec!["--worker".into(), id.into(), tier.as_str().into(), "scenarios".into()],
+        n_workers: 16,
+        case_timeout: std::time::Duration::from_secs(tier.pick(900, 6 * 3600)),
+        block: 1,
+        budget: std::time::Duration::from_secs(tier.pick(1800, 8 * 3600)),
+    };
+    let (mut st, fates) = run_cases(&cfg, n)?;
+    if !fates.is_empty() {
+        return Err(format!("scenario workers hung or died: {:?}", fates));
+    }
+    let notes: Vec<String> = st.notes.iter().cloned().collect();
+    for nline in notes {
+        if let Some(rest) = nline.strip_prefix("BOUND ") {
+            if let Ok(v) = serde_json::from_str::<Value>(rest) {
+                if let Some(name) = v["scenario"].as_str() {
+                    let mut v2 = v.clone();
+                    if let Some(o) = v2.as_object_mut() {
+                        o.remove("scenario");
+                    }
+                    bounds.insert(name.to_string(), v2);
+                }
+            }
+            st.notes.remove(&nline);
+        } else if let Some(rest) = nline.strip_prefix("MACHINERY ") {
+            return Err(rest.to_string());
+        }
+    }
+    if (bounds.len() as u64) < n {
+        return Err(format!("{} scenarios reported out of {}", bounds.len(), n));
+    }
+    Ok(st)
+}
+
+/// explores one scenario and leaves its coverage in a BOUND note (worker side)
+pub fn explore_and_note(fx: &Fixture, sc: &Scenario, bound: Option<usize>, cap: u64, property: &str, st: &mut Stats) {
+    let t0 = std::time::Instant::now();
+    match explore_scenario(fx, sc, bound, cap, property, st) {
+        Ok((orders, schedules)) => {
+            st.notes.insert(format!(
+                "BOUND {}",
+                json!({"scenario": sc.name, "preemption_bound": bound.map(|b| json!(b)).unwrap_or(json!("unbounded (complete)")), "schedules": schedules, "distinct_file_orders": orders, "wall_s": (t0.elapsed().as_secs_f64() * 10.0).round() / 10.0})
+            ));
+            if orders < 2 {
+                st.violation("harness", "vacuous_exploration", 0, || format!("scenario {} produced a single file order: nothing collided", sc.name), || json!({"scenario": sc.name}));
+            }
+        }
+        Err(e) => {
+            st.notes.insert(format!("MACHINERY {}", e));
+        }
+    }
+}
+
+pub fn worker(args: &[String]) -> i32 {
+    let tier = if args.first().map(|s| s.as_str()) == Some("thorough") { Tier::Thorough } else { Tier::Quick };
+    let fx = match fixture() {
+        Ok(f) => f,
+        Err(e) => {
+            println!("MACHINERY-ERROR {}", e);
+            return 2;
+        }
+    };
+    let scs = scenarios(tier);
+    crate::engine::sandbox::worker_loop(|i, st| {
+        let (sc, bound) = &scs[i as usize];
+        explore_and_note(&fx, sc, *bound, tier.pick(40_000, 2_000_000), "C19", st);
+    })
 }
 
 pub fn replay(case: &Value) -> i32 {
